@@ -894,6 +894,26 @@ where
     }
 }
 
+/// Read-only introspection of the node arena (only with the `verif-hooks` feature).
+#[cfg(feature = "verif-hooks")]
+impl<P, T> PrefixMap<P, T> {
+    /// Returns the arena length, the free list, the cached entry counter and, for every slot,
+    /// `(left, right, has_value)`.
+    #[allow(clippy::type_complexity)]
+    pub fn verif_arena(&self) -> (usize, Vec<usize>, usize, Vec<(Option<usize>, Option<usize>, bool)>) {
+        let table = self.table.as_ref();
+        (
+            table.len(),
+            self.free.clone(),
+            self.count,
+            table
+                .iter()
+                .map(|n| (n.left, n.right, n.value.is_some()))
+                .collect(),
+        )
+    }
+}
+
 impl<P, T> PartialEq for PrefixMap<P, T>
 where
     P: Prefix + PartialEq,
